@@ -6,7 +6,7 @@ CFG = dict(
     theorems=[
         # Props/C20Src.lean: the hand model equals what is regenerated from bowyer_watson.go (engine F)
         "orient_from_source", "inCircleDet_from_source", "ccw_from_source", "insideCirc_from_source",
-        "superTriangle_from_source", "superInit_from_source", "edges_from_source", "fanTri_from_source", "control_from_source",
+        "superTriangle_from_source", "superInit_from_source", "edges_from_source", "fanTri_from_source", "control_from_source", "edgeSame_from_source", "hole_loop_from_source",
         "vertices_check_sound", "indices_check_sound", "winding_check_sound", "delaunay_check_sound",
         "overlap_check_sound", "c20_checkers_sound", "inCircleDet_eq", "inCircleDet_on_circle",
         "inCircle_neg_of_inside", "circumcentre_exists", "inCircle_iff", "inCircleDet_smul",
